@@ -1,31 +1,57 @@
 //@ note: scratch experiments (not registered)
 use crate::stubs::*;
-use grafeo_core::graph::lpg::LpgStore;
-use grafeo_engine::transaction::TransactionManager;
-use grafeo_engine::Session;
-use std::sync::Arc;
-macro_rules! ex { ($name:ident, $body:block) => {
-    #[kani::proof]
-    #[kani::unwind(5)]
-    #[kani::stub(parking_lot::RawRwLock::lock_exclusive_slow, lk_slow)]
-    #[kani::stub(parking_lot::RawRwLock::lock_shared_slow, lk_sh_slow)]
-    #[kani::stub(parking_lot::RawRwLock::unlock_exclusive_slow, ulk_slow)]
-    #[kani::stub(parking_lot::RawRwLock::unlock_shared_slow, ulk_sh_slow)]
-    #[kani::stub(parking_lot::RawMutex::lock_slow, mx_lock_slow)]
-    #[kani::stub(parking_lot::RawMutex::unlock_slow, mx_unlock_slow)]
-    #[kani::stub(alloc::fmt::format, fmt_stub)]
-    #[kani::stub(std::hash::RandomState::new, std_rs_new)]
-    #[kani::stub(ahash::RandomState::new, ahash_rs_new)]
-    fn $name() $body
-} }
-ex!(s1_session_create_get, {
-    let store = Arc::new(LpgStore::new());
-    let txm = Arc::new(TransactionManager::new());
-    let mut w = Session::verif_new(Arc::clone(&store), Arc::clone(&txm));
-    let r = w.begin_tx(); assert!(r.is_ok()); std::mem::forget(r);
-    let n = w.create_node(&[]);
-    let g = w.get_node(n);
-    assert!(g.is_some());
-    kani::cover!(true);
-    std::mem::forget((g, w, store, txm));
-});
+use grafeo_core::index::vector::BinaryQuantizer;
+use grafeo_common::memory::buffer::{BufferManager, BufferManagerConfig, GrantReleaser, MemoryGrant, MemoryRegion};
+
+#[kani::proof]
+#[kani::unwind(5)]
+fn x_c18_binary_quantizer() {
+    let a: [f32; 3] = [f32::from_bits(kani::any()), f32::from_bits(kani::any()), f32::from_bits(kani::any())];
+    let b: [f32; 3] = [f32::from_bits(kani::any()), f32::from_bits(kani::any()), f32::from_bits(kani::any())];
+    let (qa, qb) = (BinaryQuantizer::quantize(&a), BinaryQuantizer::quantize(&b));
+    assert!(qa.len() == 1 && qb.len() == 1 && BinaryQuantizer::words_needed(3) == 1);
+    let mut i = 0;
+    while i < 3 { assert!(((qa[0] >> i) & 1 == 1) == (a[i] >= 0.0), "bit is not the sign of the component"); i += 1; }
+    assert!(qa[0] >> 3 == 0);
+    let mut diff = 0u32; let mut i = 0;
+    while i < 3 { if (a[i] >= 0.0) != (b[i] >= 0.0) { diff += 1; } i += 1; }
+    assert!(BinaryQuantizer::hamming_distance(&qa, &qb) == diff, "Hamming distance is not the number of sign disagreements");
+    assert!(BinaryQuantizer::hamming_distance(&qa, &qb) == BinaryQuantizer::hamming_distance(&qb, &qa));
+    assert!(BinaryQuantizer::hamming_distance(&qa, &qa) == 0);
+    kani::cover!(diff == 3);
+    kani::cover!(diff == 0 && a[0].is_nan());
+    std::mem::forget((qa, qb));
+}
+
+fn no_eviction(_m: &BufferManager, _to_free: usize) -> usize { 0 }
+#[kani::proof]
+#[kani::unwind(4)]
+#[kani::stub(parking_lot::RawRwLock::lock_exclusive_slow, lk_slow)]
+#[kani::stub(parking_lot::RawRwLock::lock_shared_slow, lk_sh_slow)]
+#[kani::stub(parking_lot::RawRwLock::unlock_exclusive_slow, ulk_slow)]
+#[kani::stub(parking_lot::RawRwLock::unlock_shared_slow, ulk_sh_slow)]
+#[kani::stub(alloc::fmt::format, fmt_stub)]
+#[kani::stub(grafeo_common::memory::buffer::manager::BufferManager::run_eviction_internal, no_eviction)]
+fn x_c20_split_merge() {
+    let m = BufferManager::new(BufferManagerConfig { budget: 1000, soft_limit_fraction: 1.0, evict_limit_fraction: 1.0, hard_limit_fraction: 1.0, background_eviction: false, spill_path: None });
+    let s: usize = kani::any(); kani::assume(s <= 1000);
+    let amt: usize = kani::any();
+    let g = m.try_allocate(s, MemoryRegion::GraphStorage);
+    if let Some(mut g) = g {
+        let h = g.split(amt);
+        match h {
+            Some(h) => {
+                assert!(amt <= s && g.size() + h.size() == s && h.size() == amt, "split loses or invents bytes");
+                assert!(m.allocated() == s);
+                g.merge(h);
+                assert!(g.size() == s && m.allocated() == s, "merge loses or invents bytes");
+            }
+            None => { assert!(amt > s && g.size() == s && m.allocated() == s); }
+        }
+        m.release(g.size(), g.region());
+        assert!(m.allocated() == 0);
+        kani::cover!(amt < s);
+        std::mem::forget(g);
+    }
+    std::mem::forget(m);
+}
